@@ -85,19 +85,29 @@ fn trace_operand_can_abort(e: &Expr) -> bool {
 }
 
 fn c14_strata(tier: Tier) -> Vec<Stratum> {
-    // the strata that contain trace / ? / expect / fail / todo / casts keep their full bound;
-    // the others (whose code does not depend on the tracing mode at all unless the compiler
-    // inserts traces itself) are explored one size smaller in the quick tier
-    strata(tier)
+    // Nine builds per function make this check nine times as expensive as C01 per function.
+    // Quick tier: the stratum built for this property (`trace-operands`) at its full bound,
+    // the strata that contain trace / ? / expect / fail / todo / casts one size smaller, the
+    // others (whose code depends on the tracing mode only through compiler-inserted traces)
+    // two sizes smaller.  The thorough tier uses the quick tier's C01 bounds for all strata.
+    let mut v: Vec<Stratum> = strata(Tier::Quick)
         .into_iter()
         .map(|mut s| {
             let traced = s.prods.traces || s.prods.trace_args || s.prods.aborts || s.prods.expect || s.prods.casts;
-            if !traced && tier == Tier::Quick {
-                s.max_size -= 1;
+            if tier == Tier::Quick {
+                if s.name == "trace-operands" {
+                } else if traced {
+                    s.max_size -= 1;
+                } else {
+                    s.max_size -= 2;
+                }
             }
             s
         })
-        .collect()
+        .collect();
+    // traced strata first: a wall cap, if hit, cuts the least relevant strata
+    v.sort_by_key(|s| !(s.prods.traces || s.prods.trace_args || s.prods.aborts || s.prods.expect || s.prods.casts));
+    v
 }
 
 pub fn run(tier: Tier, replay: Option<String>) -> i32 {
